@@ -442,12 +442,32 @@ def _inline_site(f, call, g):
     if loc_ is None:
         return False
     comp, idx, stmt, chain = loc_
-    # the statement must not be a loop whose condition/increment contains the call
-    if stmt["kind"] in ("ForStmt", "WhileStmt", "DoStmt"):
-        body = kids(stmt)[-1] if stmt["kind"] != "DoStmt" else kids(stmt)[0]
-        if not any(x is call for x in walk(body)):
+    # a while loop whose condition starts with the call:  while (f(a) ...) B   ->   for (;;) { <f inlined>; if (!(R ...)) break; B }
+    if stmt["kind"] == "WhileStmt" and any(x is call for x in walk(kids(stmt)[0])):
+        if _first_evaluated_call(kids(stmt)[0]) is not call:
             return False
-        return False if body["kind"] != "CompoundStmt" else False
+        if (g.type or "").strip().startswith(("void (", "void(")):
+            return False
+        inst = _instantiate(g, call, True)
+        if inst is None:
+            return False
+        stmts, rref = inst
+        cond = kids(stmt)[0]
+        holder = _mk("ParenExpr", [cond], type="int", file=cond.get("file"), line=cond.get("line"))
+        if cond is call:
+            holder["inner"] = [rref]
+        elif not _replace_node(holder, call, rref):
+            return False
+        guard = _mk("IfStmt", [_negate(kids(holder)[0]), _mk("BreakStmt", [], file=stmt.get("file"), line=stmt.get("line"))],
+                    file=stmt.get("file"), line=stmt.get("line"))
+        body = kids(stmt)[1]
+        old_body = list(kids(body)) if body["kind"] == "CompoundStmt" else [body]
+        nb = _mk("CompoundStmt", stmts + [guard] + old_body, file=body.get("file"), line=body.get("line"))
+        one = _mk("IntegerLiteral", [], value="1", type="int", file=stmt.get("file"), line=stmt.get("line"))
+        stmt["inner"] = [one, nb]
+        return True
+    if stmt["kind"] in ("ForStmt", "WhileStmt", "DoStmt"):
+        return False
     s0 = stmt
     core = s0
     while core["kind"] in ("ParenExpr", "ImplicitCastExpr", "CStyleCastExpr"):
